@@ -1,14 +1,29 @@
 """C08 Accepted job graphs can always finish.
 
-  R1  must-validate: the parent ids of a submitted job (request keys absolute_parent_ids / in_update_parent_ids, or anything derived
-      from them) reach the job_parents / jobs inserts only after a comparison with the job's own id whose failing side rejects the
-      request (HTTP 400 / ValidationError): (a) parent < child (no self / later dependency), (b) parent >= 1 or an existence guarantee
-      (foreign key on job_parents.parent_id) (no missing dependency)
-  R2  must-validate: the job id of a submitted job is compared with the update's reserved range before it is inserted
+  R1  the parent ids that are STORED in job_parents satisfy  1 <= parent  (or a foreign key job_parents(batch_id, parent_id) -> jobs exists)  and
+      parent <= stored job id - 1  for both kinds of submitted parents (absolute_parent_ids, in_update_parent_ids), and the edges are stored under the
+      job's own stored id.  Decided by abstract execution of the per-job loop of _create_jobs (module-level helpers inlined, plus the job-spec
+      validator when every caller validates first) over SYMBOLIC linear values (engines/c08ids.py): every rejecting test that is executed for
+      every job contributes the negation of its condition as a linear constraint; a bound holds when one constraint implies it for every valuation,
+      it is violated when no test bounds the id at all or every test on it leaves a positive excess (off-by-one, comparison made in the wrong
+      coordinates, only some parents checked); anything else is declined.
+  R2  the job id that is STORED in jobs satisfies  start_job_id <= id <= start_job_id + n_jobs - 1  where start_job_id / n_jobs are the columns of
+      the batch_updates row read for the very (batch_id, update_id) the job is stored under; `record[...]` values are resolved through the SELECT
+      list (arithmetic done in SQL, e.g. `start_job_id + n_jobs AS end_job_id`, is seen as the linear form it is)
   R3  commit refuses a wrong job count: every write of commit_batch_update sits under staging_n_jobs = expected_n_jobs, the other
       branch rolls back and returns a non-zero rc, and the front end turns that into an error response
   R4  duplicate parents are rejected (ER_DUP_ENTRY on job_parents -> HTTP 400) and the job-spec validator demands contiguous job ids
+      (current id - previous id != 1 rejects, compared as linear forms)
   R5  the id fields of the job spec are validated as integers: the comparisons of R1/R2 are made on the value that is stored
+  R6  the staged job count that commit_batch_update compares with batch_updates.n_jobs is the number of job rows of the update: the staging insert is
+      dominated by INSERT INTO jobs in the bunch transaction and is not reachable from its duplicate-key (replayed bunch) branch; one staged job per
+      spec; the commit reads SUM(n_jobs) of the update's root staging rows and n_jobs of the update's own row
+  R7  the recount of pending parents in commit_batch_update (updates after the first) contributes 0 for a dependency edge whose parent id has no jobs
+      row: R1 only proves that a parent id lies in a reserved range, an abandoned earlier update leaves a hole there; decided from the contribution of
+      the NULL row class to each aggregate of the derived table and linearity of the stored expressions
+  R8  existence of parents below the update's own range: R1/R2/R6 make the ids of an update exist once THAT update is committed; for ids reserved by an
+      earlier update some construct must establish existence (refusal to open or commit an update while an earlier one is uncommitted, look-up of the
+      parents in jobs, foreign key).  None is present today: known finding (the acceptance clause is violated; R7 keeps such batches completable)
 Not decided: anything about graphs once R1 holds (with parent < child the dependency relation is acyclic by construction).
 """
 from __future__ import annotations
@@ -24,17 +39,17 @@ from engines.sqlast import N, text
 
 META = dict(
     category='other',
-    text='A must-validate taint rule over the submission path: sources are the parent-id / job-id request fields, sinks are the job_parents and jobs inserts, '
-         'validators are comparisons against the job\'s own id / the reserved range whose failing branch rejects. Plus the guard structure of the commit procedure.',
-    note='The rule demands that some rejecting comparison exists on the path; it does not prove the comparison is the right one beyond its operands and direction. '
+    text='The ids stored by the submission path are shown to lie in the ranges the property demands: abstract execution of the per-job loop over symbolic linear values, '
+         'rejecting tests as linear constraints, implication decided by comparing normal forms (sources: request fields and the batch_updates row, resolved through the SELECT list; '
+         'sinks: the tuples bound to the jobs / job_parents inserts). Plus the guard structure of the commit procedure and the integer-ness of the id fields.',
+    note='One-constraint implications only (no elimination across several constraints: such shapes are declined). start_job_id >= 1 and n_jobs >= 0 are assumed for the update row. '
          'Schema constraints are read from the replayed migrations.',
-    technique='static analysis: source/sink/validator taint rule on the AST + guard dominance in the commit procedure',
+    technique='static analysis: abstract execution over symbolic linear forms with helper inlining, comparison of linear normal forms (Python and SQL select list), guard dominance in the commit procedure',
     design_ref='DESIGN.md §3 C08',
 )
 
 FE = 'batch/batch/front_end/front_end.py'
 VAL = 'batch/batch/front_end/validate.py'
-PARENT_KEYS = {'absolute_parent_ids', 'in_update_parent_ids', 'parent_ids'}
 
 
 def _raises(stmts: List[ast.stmt]) -> bool:
@@ -43,44 +58,6 @@ def _raises(stmts: List[ast.stmt]) -> bool:
             if isinstance(n, ast.Raise) and n.exc is not None and any(k in pf.nsrc(n.exc) for k in ('HTTPBadRequest', 'ValidationError', 'HTTPUnprocessableEntity')):
                 return True
     return False
-
-
-def _tainted_names(fn: pf.FuncDef, seeds: Set[str]) -> Set[str]:
-    """Names that (transitively) hold values derived from the seed names / request keys."""
-    tainted = set(seeds)
-    changed = True
-    while changed:
-        changed = False
-        for n in pf.walk_shallow(fn):
-            targets: List[str] = []
-            value: Optional[ast.AST] = None
-            if isinstance(n, ast.Assign):
-                value = n.value
-                for t in n.targets:
-                    targets += [x.id for x in ast.walk(t) if isinstance(x, ast.Name)]
-            elif isinstance(n, (ast.For, ast.AsyncFor)):
-                value = n.iter
-                targets = [x.id for x in ast.walk(n.target) if isinstance(x, ast.Name)]
-            elif isinstance(n, ast.comprehension):
-                value = n.iter
-                targets = [x.id for x in ast.walk(n.target) if isinstance(x, ast.Name)]
-            if value is None:
-                continue
-            src_names = pf.names_in(value)
-            keys = {pf.const_str(s.slice) for s in ast.walk(value) if isinstance(s, ast.Subscript)} | \
-                   {pf.const_str(c.args[0]) for c in ast.walk(value) if isinstance(c, ast.Call) and c.args and isinstance(c.func, ast.Attribute) and c.func.attr in ('pop', 'get')}
-            if (src_names & tainted) or (keys & seeds):
-                for t in targets:
-                    if t not in tainted:
-                        tainted.add(t)
-                        changed = True
-    # comprehension variables inside expressions
-    for n in ast.walk(fn):
-        if isinstance(n, ast.comprehension) and (pf.names_in(n.iter) & tainted):
-            for x in ast.walk(n.target):
-                if isinstance(x, ast.Name):
-                    tainted.add(x.id)
-    return tainted
 
 
 def _rejecting_compares(fn: pf.FuncDef) -> List[Tuple[ast.Compare, ast.AST]]:
@@ -94,78 +71,302 @@ def _rejecting_compares(fn: pf.FuncDef) -> List[Tuple[ast.Compare, ast.AST]]:
     return out
 
 
-def _mentions(e: ast.AST, names: Set[str], keys: Set[str] = frozenset()) -> bool:
-    if pf.names_in(e) & names:
-        return True
-    for s in ast.walk(e):
-        if isinstance(s, ast.Subscript) and pf.const_str(s.slice) in keys:
-            return True
-    return False
+# ---- R1 / R2: the ids that are STORED lie in the ranges the property demands ----------------------------------------------------------
+#
+# Decided by comparing linear normal forms (engines/c08ids.py): the per-job loop of _create_jobs (module-level helpers inlined) is executed
+# abstractly over the symbols  rel_job_id (what the client sent), start_job_id / n_jobs (columns of the update's batch_updates row, resolved
+# through the SELECT that feeds `record[...]`, so arithmetic done in SQL is seen), parent[absolute] / parent[in_update].  Every rejecting
+# test that dominates the rest of the loop body contributes the negation of its condition as a constraint  L <= 0; the tuples appended to
+# the jobs / job_parents argument lists give the stored ids.  A bound holds when one constraint implies it for every valuation of the
+# symbols; it is VIOLATED when every constraint on that symbol leaves an excess that is positive for some valuation (off-by-one, wrong
+# coordinates) or when no rejecting test bounds the symbol at all.
+
+def _sql_lin(prog, st: N, e: N):
+    """linear form of a SQL select-list expression over the columns of batch_updates (other columns: opaque symbols)."""
+    from engines import linform as lf
+    from engines import c08ids as ci
+    if e.kind == 'lit' and isinstance(e.value, int) and not isinstance(e.value, bool):
+        return lf.const(e.value)
+    if e.kind == 'col':
+        tabs = sf.from_tables(st.frm)
+        col = e.parts[-1].lower()
+        owner = None
+        if len(e.parts) >= 2:
+            q = e.parts[-2].lower()
+            for t in tabs:
+                if t.kind == 'table' and q in ((t.alias or '').lower(), t.name.lower()):
+                    owner = t.name.lower()
+        else:
+            have = [t.name.lower() for t in tabs if t.kind == 'table' and col in [c.lower() for c in prog.tables.get(t.name, prog.tables.get(t.name.lower(), []))]]
+            if len(have) == 1:
+                owner = have[0]
+        if owner == 'batch_updates' and col == 'start_job_id':
+            return lf.sym(ci.S)
+        if owner == 'batch_updates' and col == 'n_jobs':
+            return lf.sym(ci.NJ)
+        return lf.sym(f'sql:{owner or "?"}.{col}')
+    if e.kind == 'bin' and e.op in ('+', '-'):
+        a, b = _sql_lin(prog, st, e.left), _sql_lin(prog, st, e.right)
+        return a + b if e.op == '+' else a - b
+    if e.kind == 'bin' and e.op == '*':
+        a, b = _sql_lin(prog, st, e.left), _sql_lin(prog, st, e.right)
+        if a.is_const():
+            return b.scale(a.const)
+        if b.is_const():
+            return a.scale(b.const)
+    if e.kind == 'cast':
+        return _sql_lin(prog, st, e.arg)
+    return lf.sym(f'sql:{text(e)}')
+
+
+def _stores(fn: pf.FuncDef, name: str) -> int:
+    return sum(1 for n in ast.walk(fn) if isinstance(n, ast.Name) and n.id == name and isinstance(n.ctx, (ast.Store, ast.Del)))
+
+
+def _row_reads(ctx: Ctx, prog, fn: pf.FuncDef, upto: int):
+    """`rec = await db.select_and_fetchone(<SELECT ... FROM batch_updates ...>, args)` statements at the top level of fn before line `upto`:
+    returns (env entries for rec['col'], [(rec, select stmt, python args)])."""
+    from engines.sqlast import parse_statements, SqlParseError
+    env = {}
+    reads = []
+    for st in fn.body:
+        if st.lineno >= upto:
+            break
+        if not (isinstance(st, ast.Assign) and len(st.targets) == 1 and isinstance(st.targets[0], ast.Name)):
+            continue
+        v = st.value.value if isinstance(st.value, ast.Await) else st.value
+        if not (isinstance(v, ast.Call) and isinstance(v.func, ast.Attribute) and v.func.attr in ('select_and_fetchone', 'execute_and_fetchone') and v.args):
+            continue
+        sql, holes, how = sf._sql_of_expr(fn, v.args[0])
+        if sql is None:
+            continue
+        try:
+            sts = parse_statements(sql)
+        except SqlParseError as e:
+            raise AnalysisError(f'{FE}::_create_jobs: SQL of `{st.targets[0].id} = ...` not parsed: {e}')
+        if len(sts) != 1 or sts[0].kind != 'select' or 'batch_updates' not in [t.lower() for t in sf.table_names(sts[0].frm)]:
+            continue
+        rec = st.targets[0].id
+        ctx.need(_stores(fn, rec) == 1, f'{FE}::_create_jobs: `{rec}` is assigned more than once')
+        for c, al in sts[0].cols:
+            name = al or (c.parts[-1] if c.kind == 'col' else None)
+            if name is None:
+                continue
+            env[f'{rec}[{name!r}]'] = _sql_lin(prog, sts[0], c)
+        reads.append((rec, sts[0], sr.args_tuple(fn, v.args[1]) if len(v.args) > 1 else None))
+    return env, reads
+
+
+def _pinned_arg(sel: N, args, column: str) -> Optional[ast.AST]:
+    """the python expression compared for equality with batch_updates.<column> in the WHERE clause of the row read."""
+    if args is None:
+        return None
+    params = sr.params_in_order(sel)
+    for c in sf.conjuncts(sel.where):
+        if c.kind == 'bin' and c.op == '=':
+            for a, b in ((c.left, c.right), (c.right, c.left)):
+                if a.kind == 'col' and a.parts[-1].lower() == column and (len(a.parts) == 1 or a.parts[-2].lower() in _aliases(sel, 'batch_updates')) and b.kind == 'param':
+                    idx = [i for i, p in enumerate(params) if p is b]
+                    if idx and idx[0] < len(args):
+                        return args[idx[0]]
+    return None
+
+
+def _aliases(sel: N, table: str) -> Set[str]:
+    out = set()
+    for t in sf.from_tables(sel.frm):
+        if t.kind == 'table' and t.name.lower() == table:
+            out.add(table)
+            if t.alias:
+                out.add(t.alias.lower())
+    return out
+
+
+def _insert_sinks(ctx: Ctx, m: pf.Module):
+    """argument lists of the INSERT INTO jobs / job_parents execute_many calls inside _create_jobs: list name -> (table, {column: tuple index})."""
+    out = {}
+    for e in sf.embedded_in(m):
+        if not e.qual.startswith('_create_jobs') or e.method not in ('execute_many', 'executemany') or len(e.call.args) < 2:
+            continue
+        sts = e.stmts()
+        if len(sts) != 1 or sts[0].kind != 'insert':
+            continue
+        tname = (sts[0].table if isinstance(sts[0].table, str) else getattr(sts[0].table, 'name', '')).lower()
+        if tname not in ('jobs', 'job_parents'):
+            continue
+        ins, _dup, _uv = sr.insert_colmap(sts[0])
+        params = sr.params_in_order(sts[0])
+        idx = {}
+        for col, ex in ins.items():
+            if ex.kind == 'param':
+                idx[col] = [i for i, p in enumerate(params) if p is ex][0]
+        lst = e.call.args[1]
+        ctx.need(isinstance(lst, ast.Name), f'{FE}::{e.qual}: rows of INSERT INTO {tname} are not passed as a named list')
+        out[lst.id] = (tname, idx)  # type: ignore[union-attr]
+    return out
+
+
+def _excess(diff) -> str:
+    return f'{diff}' if not diff.is_const() else f'{diff.const}'
+
+
+def _spec_loop(ctx: Ctx, fn: pf.FuncDef, lists: Set[str], what: str):
+    loops = [n for n in fn.body if isinstance(n, ast.For) and any(isinstance(c, ast.Call) and isinstance(c.func, ast.Attribute) and c.func.attr == 'append'
+                                                                    and isinstance(c.func.value, ast.Name) and c.func.value.id in lists for c in ast.walk(n))]
+    ctx.need(len(loops) == 1 and isinstance(loops[0].target, ast.Name) and not loops[0].orelse, f'{what}: the per-job loop that fills {sorted(lists)} was not recognised')
+    return loops[0]
+
+
+def _validator_constraints(ctx: Ctx, m: pf.Module):
+    """Constraints the job-spec validator puts on the ids, usable when every caller of _create_jobs validates the same list first."""
+    from engines import c08ids as ci
+    from engines import inline
+    from engines import linform as lf
+    vm = pf.load(VAL)
+    vm2, _il = inline.inline_functions(vm, 'validate_and_clean_jobs')
+    vfn = vm2.func('validate_and_clean_jobs')
+    loops = [n for n in vfn.body if isinstance(n, ast.For)]
+    ctx.need(len(loops) == 1, f'{VAL}::validate_and_clean_jobs: per-job loop not recognised')
+    lp = loops[0]
+    tgt = lp.target
+    if isinstance(tgt, ast.Tuple) and len(tgt.elts) == 2 and isinstance(lp.iter, ast.Call) and pf.dotted(lp.iter.func) == 'enumerate':
+        tgt = tgt.elts[1]
+    ctx.need(isinstance(tgt, ast.Name), f'{VAL}::validate_and_clean_jobs: loop variable not recognised')
+    spec = tgt.id  # type: ignore[union-attr]
+    fl = ci.IdFlow(ci.REL, spec, {f'{spec}[{"job_id"!r}]': lf.sym(ci.REL)}, {})
+    fl.run(lp.body, VAL)
+    # a validator that rewrites the id slots would change what _create_jobs reads
+    for n in ast.walk(lp):
+        if isinstance(n, ast.Subscript) and isinstance(n.ctx, ast.Store) and isinstance(n.value, ast.Name) and n.value.id == spec and pf.const_str(n.slice) in ('job_id', 'in_update_parent_ids'):
+            raise AnalysisError(f'{VAL}::validate_and_clean_jobs rewrites {spec}[{pf.const_str(n.slice)!r}]')
+    cons = [c for c in fl.cons if all(x in ci.BASE for x in c.le0.symbols())]
+    und = list(fl.undecided)
+    if not cons and not und:
+        return [], [], []
+    # every caller of _create_jobs must have validated the list it passes
+    callers_ok = True
+    for f in [n for n in m.tree.body if isinstance(n, (ast.FunctionDef, ast.AsyncFunctionDef))]:
+        for c in pf.walk_shallow(f):
+            if isinstance(c, ast.Call) and pf.dotted(c.func) == '_create_jobs':
+                arg = c.args[1] if len(c.args) > 1 else None
+                seen = any(isinstance(v, ast.Call) and pf.dotted(v.func) == 'validate_and_clean_jobs' and v.args and isinstance(arg, ast.Name) and isinstance(v.args[0], ast.Name)
+                           and v.args[0].id == arg.id and v.lineno < c.lineno for v in pf.walk_shallow(f))
+                callers_ok = callers_ok and seen
+    if not callers_ok:
+        return [], [(f'{VAL}: the validator constrains the ids but a caller of _create_jobs does not visibly validate the list it passes', frozenset(ci.BASE))] + und, []
+    return cons, und, list(fl.neq)
 
 
 def r1_r2(ctx: Ctx) -> None:
+    from engines import c08ids as ci
+    from engines import inline
+    from engines import linform as lf
     m = pf.load(FE)
-    fn = m.func('_create_jobs')
-    vm = pf.load(VAL)
-    vfn = vm.func('validate_and_clean_jobs')
-    helpers = [vm.func(n) for n in ('handle_job_backwards_compatibility',) if vm.has_func(n)]
-    # sinks must exist
-    sinks = [n for n in pf.walk_shallow(fn) if isinstance(n, ast.Call) and pf.dotted(n.func) == 'job_parents_args.append']
-    ctx.need(len(sinks) == 1, '_create_jobs: job_parents sink not found')
-    parents = _tainted_names(fn, set(PARENT_KEYS))
-    ctx.need('parent_ids' in parents and 'parent_id' in parents, '_create_jobs: parent id flow not recognised')
-    own = {'job_id'}
-    found_upper = found_lower = False
-    sites = []
-    for c, ifn in _rejecting_compares(fn):
-        if ifn.lineno > sinks[0].lineno:
-            continue
-        sides = [c.left] + list(c.comparators)
-        if any(_mentions(s, parents) for s in sides) and any(_mentions(s, own | {'update_start_job_id'}, {'job_id'}) for s in sides):
-            found_upper = True
-            sites.append(f'{m.rel}:{c.lineno} {pf.nsrc(c)}')
-        if any(_mentions(s, parents) for s in sides) and any(isinstance(s, ast.Constant) and s.value in (0, 1) for s in sides):
-            found_lower = True
-            sites.append(f'{m.rel}:{c.lineno} {pf.nsrc(c)}')
-    for f2 in [vfn] + helpers:
-        vp = _tainted_names(f2, set(PARENT_KEYS))
-        for c, ifn in _rejecting_compares(f2):
-            sides = [c.left] + list(c.comparators)
-            if any(_mentions(s, vp, PARENT_KEYS) for s in sides) and any(_mentions(s, {'job_id'}, {'job_id'}) for s in sides):
-                found_upper = True
-                sites.append(f'{vm.rel}:{c.lineno} {pf.nsrc(c)}')
-            if any(_mentions(s, vp, PARENT_KEYS) for s in sides) and any(isinstance(s, ast.Constant) and s.value in (0, 1) for s in sides):
-                found_lower = True
-                sites.append(f'{vm.rel}:{c.lineno} {pf.nsrc(c)}')
     prog = sf.load_program()
-    fk = False
-    for s in prog.scripts:
-        if s.endswith('.sql'):
-            from engines.common import read_repo
-            src = read_repo(f'batch/sql/{s}')
-            if 'job_parents' in src and 'parent_id' in src:
-                import re
-                if re.search(r'FOREIGN\s+KEY\s*\(\s*`?batch_id`?\s*,\s*`?parent_id`?\s*\)\s*REFERENCES\s+`?jobs`?', src, re.I):
-                    fk = True
-    cons = f'{FE}::_create_jobs::parent ids -> job_parents'
-    ctx.check(found_upper, 'R1', cons + '::parent < child', 'no comparison of a submitted parent id with the job\'s own id rejects the request before the job_parents insert (neither in _create_jobs nor in the '
-              'job-spec validator): a job may name itself or a later job as parent; its n_pending_parents then never reaches 0 and the committed batch can never complete', m.path, sinks[0].lineno,
-              detail=sites)
-    ctx.check(found_lower or fk, 'R1', cons + '::parent exists', 'a submitted parent id is neither bounded below (>= 1) with parent < child, nor protected by a foreign key job_parents(batch_id, parent_id) -> jobs: '
-              'a job may depend on a job that does not exist; n_pending_parents never reaches 0', m.path, sinks[0].lineno, detail={'foreign_key': fk, 'sites': sites})
-    # R2: job id range
-    jsink = [n for n in pf.walk_shallow(fn) if isinstance(n, ast.Call) and pf.dotted(n.func) == 'jobs_args.append']
-    ctx.need(len(jsink) == 1, '_create_jobs: jobs sink not found')
-    rng = False
-    range_names = {'update_n_jobs', 'n_jobs', 'update_end_job_id', 'end_job_id'}
-    for c, ifn in _rejecting_compares(fn):
-        if ifn.lineno > jsink[0].lineno:
-            continue
-        sides = [c.left] + list(c.comparators)
-        if any(_mentions(s, {'job_id'}, {'job_id'}) for s in sides) and any(_mentions(s, range_names, {'n_jobs'}) for s in sides):
-            rng = True
-    ctx.check(rng, 'R2', f'{FE}::_create_jobs::job id within reserved range', 'the submitted job_id is never compared with the update\'s reserved range (start_job_id .. start_job_id + n_jobs - 1) before the insert: '
-              'a bunch may place jobs outside the range its update reserved (only the COUNT of jobs is checked at commit), colliding with ids a later update reserves', m.path, jsink[0].lineno)
+    m.func('_create_jobs')
+    sinks_spec = _insert_sinks(ctx, m)
+    tables = {v[0] for v in sinks_spec.values()}
+    ctx.need(tables == {'jobs', 'job_parents'}, f'{FE}::_create_jobs: INSERT INTO jobs / job_parents argument lists not found (found {sorted(tables)})')
+    for v in sinks_spec.values():
+        ctx.need('job_id' in v[1] and (v[0] != 'job_parents' or 'parent_id' in v[1]), f'{FE}::_create_jobs: id columns of INSERT INTO {v[0]} are not bound to parameters')
+    m2, il = inline.inline_functions(m, '_create_jobs')
+    fn = m2.func('_create_jobs')
+    for name in sinks_spec:
+        ctx.need(_stores(fn, name) == 1, f'{FE}::_create_jobs: `{name}` is rebound after its initialisation')
+    loop = _spec_loop(ctx, fn, set(sinks_spec), f'{FE}::_create_jobs')
+    spec = loop.target.id  # type: ignore[union-attr]
+    env, reads = _row_reads(ctx, prog, fn, loop.lineno)
+    ctx.need(reads, f'{FE}::_create_jobs: the read of the update\'s batch_updates row was not recognised')
+    env[f'{spec}[{"job_id"!r}]'] = lf.sym(ci.REL)
+    fl = ci.IdFlow(ci.REL, spec, env, {k: (v[0], v[1]['job_id'], v[1].get('parent_id')) for k, v in sinks_spec.items()})
+    fl.run([st for st in fn.body if st.lineno < loop.lineno], FE)
+    fl.run(loop.body, FE)
+    vcons, vund, vneq = _validator_constraints(ctx, m)
+    cons = list(fl.cons) + vcons
+    und = list(fl.undecided) + vund
+    neq = list(fl.neq) + vneq
+    ctx.unit('accepted-path constraints on submitted ids', len(cons))
+    ctx.unit('helpers inlined into _create_jobs', len(il.inlined))
+    jsinks = [s for s in fl.sinks if s.table == 'jobs']
+    psinks = [s for s in fl.sinks if s.table == 'job_parents']
+    ctx.need(jsinks and psinks, f'{FE}::_create_jobs: rows appended to the jobs / job_parents argument lists not found')
+
+    def verdict(goal, var: str, what: str):
+        """('ok'|'bad'|decline) for `goal <= 0` on every accepted request."""
+        # a constraint obtained inside a loop over a parent list says nothing when that list is empty: only constraints over the goal's own
+        # symbols (and the range columns) can bound it for every request
+        allowed = {var, ci.REL, ci.S, ci.NJ}
+        status, c, diff = ci.decide(goal, var, [k for k in cons if set(k.le0.symbols()) <= allowed])
+        if status == 'ok':
+            return True, f'{what}: implied by `{c.text}` ({c.file}:{c.line})'
+        blockers = [t for t, at in und if var in at]
+        # a test on this id against a value the analysis has no normal form for (a non-linear expression, a column of another table)
+        blockers += [f'{k.file}:{k.line}: `{k.text}` compares with {sorted(set(k.le0.symbols()) - ci.BASE)}' for k in cons
+                     if var in k.le0.symbols() and (k.le0.coef[var] > 0) == (goal.coef.get(var, 0) > 0) and not set(k.le0.symbols()) <= ci.BASE]
+        if status == 'unknown' or blockers:
+            raise AnalysisError(f'{FE}::_create_jobs: cannot decide `{what}`: ' + ('; '.join(blockers[:3]) if blockers else f'`{c.text}` leaves {diff} <= 0 to be shown'))
+        if status == 'lenient':
+            sharpen = [t for t, at in neq if var in at]
+            if sharpen:
+                raise AnalysisError(f'{FE}::_create_jobs: cannot decide `{what}`: `{c.text}` is too weak by {_excess(diff)} but {sharpen[0]} may sharpen it')
+            return False, f'{what} is not enforced: the only rejecting test on it, `{c.text}` ({c.file}:{c.line}), lets through values that exceed the bound by {_excess(diff)}'
+        return False, f'{what} is not enforced: no rejecting test executed for every job bounds it'
+
+    # ---- R2: start_job_id <= stored job id <= start_job_id + n_jobs - 1 -------------------------------------------------------------------
+    msgs = []
+    good = []
+    for s in jsinks:
+        ctx.need(ci.REL in s.job.symbols(), f'{FE}::_create_jobs: the job id stored in `jobs` ({s.job}) is not a linear function of the submitted job_id')
+        lo_ok, lo_t = verdict(lf.sym(ci.S) - s.job, ci.REL, f'stored job id ({s.job}) >= start_job_id')
+        hi_ok, hi_t = verdict(s.job - lf.sym(ci.S) - lf.sym(ci.NJ) + lf.const(1), ci.REL, f'stored job id ({s.job}) <= start_job_id + n_jobs - 1')
+        (good if lo_ok else msgs).append(lo_t)
+        (good if hi_ok else msgs).append(hi_t)
+    ctx.check(not msgs, 'R2', f'{FE}::_create_jobs::job id within reserved range',
+              '; '.join(msgs) + '. A bunch may then place a job outside the ids start_job_id .. start_job_id + n_jobs - 1 its update reserved: only the COUNT of staged jobs is checked at commit, so an update '
+              'reserving n ids can be committed with one id of its range missing and one foreign id present (e.g. n_jobs = 3, bunches [1, 2] and [4 with in_update_parent_ids [3]]: job 4 waits for a job 3 that '
+              'never exists; the foreign id also collides with the neighbouring update\'s range)', m.path, jsinks[0].line, detail=good)
+    # the range compared against is the one of the update the jobs are recorded under
+    rec, sel, args = reads[0]
+    jl = [k for k, v in sinks_spec.items() if v[0] == 'jobs'][0]
+    tup = None
+    for n in ast.walk(loop):
+        if isinstance(n, ast.Call) and isinstance(n.func, ast.Attribute) and n.func.attr == 'append' and isinstance(n.func.value, ast.Name) and n.func.value.id == jl and n.args and isinstance(n.args[0], ast.Tuple):
+            tup = n.args[0]
+    ctx.need(tup is not None, f'{FE}::_create_jobs: jobs tuple not found')
+    for col in ('batch_id', 'update_id'):
+        pinned = _pinned_arg(sel, args, col)
+        i = sinks_spec[jl][1].get(col)
+        ctx.need(pinned is not None and i is not None and i < len(tup.elts), f'{FE}::_create_jobs: the row read `{text(sel)[:80]}...` is not pinned to batch_updates.{col} = <python value>')  # type: ignore[union-attr]
+        stored = tup.elts[i]  # type: ignore[union-attr,index]
+        ctx.need(isinstance(pinned, ast.Name) and isinstance(stored, ast.Name) and _stores(fn, pinned.id) == 0 and _stores(fn, stored.id) == 0,
+                 f'{FE}::_create_jobs: {col} of the range read / of the stored job is not a plain parameter')
+        ctx.check(pinned.id == stored.id, 'R2', f'{FE}::_create_jobs::reserved range read for the job\'s own {col}',  # type: ignore[union-attr]
+                  f'the reserved range is read from the batch_updates row with {col} = {pf.nsrc(pinned)} but the jobs are stored with {col} = {pf.nsrc(stored)}: ids are checked against another update\'s range',
+                  m.path, loop.lineno)
+
+    # ---- R1: 1 <= stored parent id <= stored job id - 1, edges stored under the job's own id ----------------------------------------------------
+    fk = _has_parent_fk(prog)
+    cons_key = f'{FE}::_create_jobs::parent ids -> job_parents'
+    up_msgs, up_good, lo_msgs, lo_good = [], [], [], []
+    seen_sources = set()
+    for s in psinks:
+        ctx.need(s.source in ('abs', 'rel') and s.parent is not None, f'{FE}::_create_jobs: a row is appended to the job_parents arguments outside a loop over the submitted parent ids')
+        seen_sources.add(s.source)
+        var = ci.P_ABS if s.source == 'abs' else ci.P_REL
+        key = 'absolute_parent_ids' if s.source == 'abs' else 'in_update_parent_ids'
+        ctx.need(var in s.parent.symbols(), f'{FE}::_create_jobs: the parent id stored for {key} ({s.parent}) is not a linear function of the submitted id')
+        ctx.check(any(s.job == j.job for j in jsinks), 'R1', f'{cons_key}::edge stored under the job\'s own id ({key})',
+                  f'the job_parents row of a job is stored with job_id = {s.job} while the job itself is stored with job_id = {jsinks[0].job}: the dependency is attached to another job', m.path, s.line)
+        ok, t = verdict(s.parent - s.job + lf.const(1), var, f'{key}: stored parent id ({s.parent}) < stored job id ({s.job})')
+        (up_good if ok else up_msgs).append(t)
+        if not fk:
+            ok, t = verdict(lf.const(1) - s.parent, var, f'{key}: stored parent id ({s.parent}) >= 1')
+            (lo_good if ok else lo_msgs).append(t)
+    ctx.need(seen_sources == {'abs', 'rel'}, f'{FE}::_create_jobs: parent ids of kind {sorted({"abs", "rel"} - seen_sources)} never reach job_parents (flow not recognised)')
+    ctx.check(not up_msgs, 'R1', cons_key + '::parent < child', '; '.join(up_msgs) + '. A job may then name itself or a later job as parent (for in-update ids the comparison must be made in the same coordinates as '
+              'the ids that are stored); its n_pending_parents never reaches 0 and the committed batch can never complete', m.path, psinks[0].line, detail=up_good)
+    ctx.check(fk or not lo_msgs, 'R1', cons_key + '::parent exists', '; '.join(lo_msgs) + '; and there is no foreign key job_parents(batch_id, parent_id) -> jobs. A job may depend on a job id that '
+              'never exists (e.g. parent 0); n_pending_parents never reaches 0', m.path, psinks[0].line, detail={'foreign_key': fk, 'bounds': lo_good})
 
 
 def r3(ctx: Ctx) -> None:
@@ -215,11 +416,287 @@ def r4(ctx: Ctx) -> None:
     ctx.check(ok, 'R4', f'{FE}::_create_jobs.insert_jobs_into_db::duplicate parents', 'a duplicated (job, parent) pair is not answered with HTTP 400', m.path, fn.lineno)
     vm = pf.load(VAL)
     vfn = vm.func('validate_and_clean_jobs')
+    from engines import linform as lf
+    cur = {t.id for n in ast.walk(vfn) if isinstance(n, ast.Assign) and isinstance(n.value, ast.Subscript) and pf.const_str(n.value.slice) == 'job_id' for t in n.targets if isinstance(t, ast.Name)}
+    prev = {t.id for n in ast.walk(vfn) if isinstance(n, ast.Assign) and isinstance(n.value, ast.Name) and n.value.id in cur for t in n.targets if isinstance(t, ast.Name)}
+    ctx.need(cur and prev, f'{VAL}::validate_and_clean_jobs: current / previous job id variables not recognised')
     contiguous = False
+    weaker = []
     for c, ifn in _rejecting_compares(vfn):
-        if pf.nsrc(c) in ('job_id != prev_job_id + 1', 'prev_job_id + 1 != job_id'):
+        names = pf.names_in(c)
+        if not (names & cur and names & prev):
+            continue
+        ctx.need(len(c.ops) == 1, f'{VAL}::validate_and_clean_jobs: chained comparison `{pf.nsrc(c)}` of consecutive job ids not recognised')
+        try:
+            d = lf.lin(c.left) - lf.lin(c.comparators[0])
+        except AnalysisError:
+            raise AnalysisError(f'{VAL}::validate_and_clean_jobs: comparison `{pf.nsrc(c)}` of consecutive job ids is not linear')
+        a = [x for x in d.symbols() if x in cur]
+        b = [x for x in d.symbols() if x in prev]
+        ctx.need(len(d.symbols()) == 2 and len(a) == 1 and len(b) == 1 and d.coef[a[0]] == -d.coef[b[0]] and abs(d.coef[a[0]]) == 1,
+                 f'{VAL}::validate_and_clean_jobs: comparison `{pf.nsrc(c)}` of consecutive job ids not recognised')
+        gap = -d.const * d.coef[a[0]]           # the test reads  cur - prev  OP  gap
+        if isinstance(c.ops[0], ast.NotEq) and gap == 1:
             contiguous = True
-    ctx.check(contiguous, 'R4', f'{VAL}::validate_and_clean_jobs::contiguous ids', 'job ids within a bunch are not required to be contiguous', vm.path, vfn.lineno)
+        elif isinstance(c.ops[0], (ast.NotEq, ast.Lt, ast.LtE, ast.Gt, ast.GtE)):
+            weaker.append(pf.nsrc(c))
+        else:
+            raise AnalysisError(f'{VAL}::validate_and_clean_jobs: comparison `{pf.nsrc(c)}` of consecutive job ids not recognised')
+    ctx.check(contiguous, 'R4', f'{VAL}::validate_and_clean_jobs::contiguous ids', 'job ids within a bunch are not required to be contiguous (id = previous id + 1)'
+              + (f': the only test is `{weaker[0]}`' if weaker else ''), vm.path, vfn.lineno)
+
+
+def r6(ctx: Ctx) -> None:
+    """The existence of the ids start .. start + n - 1 of a committed update is never checked row by row: commit_batch_update compares the STAGED job count
+    of the update with batch_updates.n_jobs, and with the range check (R2) and the primary key of jobs that pins the set of ids.  This only works when the
+    staged count is the number of job rows: each bunch stages once per inserted row, in the transaction that inserted the rows, and a replayed bunch
+    (duplicate key on jobs) stages nothing."""
+    m = pf.load(FE)
+    fn = m.func('_create_jobs.insert_jobs_into_db')
+    cons = f'{FE}::_create_jobs.insert_jobs_into_db'
+    g = pf.cfg(fn)
+    jobs_e = stage_e = None
+    for e in sorted([e for e in sf.embedded_in(m) if e.fn is fn], key=lambda e: e.lineno):
+        for st in e.stmts():
+            if st.kind == 'insert' and isinstance(st.table, str):
+                if st.table.lower() == 'jobs':
+                    jobs_e = (e, st)
+                if st.table.lower() == 'job_groups_inst_coll_staging':
+                    stage_e = (e, st)
+    ctx.need(jobs_e is not None and stage_e is not None, f'{cons}: INSERT INTO jobs / job_groups_inst_coll_staging not found')
+    jn, sn = g.node_of(jobs_e[0].call), g.node_of(stage_e[0].call)
+    ctx.need(len(jn) == 1 and len(sn) == 1, f'{cons}: CFG nodes of the inserts not found')
+    # a transaction that commits (normal return) after the staging insert must have completed INSERT INTO jobs normally: in the graph without the normal
+    # out-edges of the jobs insert (only its exceptional exits remain) no path entry -> staging insert -> normal exit may exist
+    def no_success(a, b, lab):
+        return not (a is jn[0] and lab != 'exc')
+    reach_stage = sn[0].id in g.reachable_from(g.entry, edge_ok=no_success)
+    stage_to_exit = g.exit.id in g.reachable_from(sn[0], edge_ok=no_success)
+    before = jn[0].id in g.reachable_from(sn[0])
+    ctx.check(not (reach_stage and stage_to_exit), 'R6', cons + '::staged once per inserted bunch',
+              ('the staging counters are written before INSERT INTO jobs and the transaction still completes normally when that insert fails with a duplicate key (replayed bunch)' if before else
+               'the staging insert is reached on a path on which INSERT INTO jobs did not complete (its duplicate-key branch or a path around it)') +
+              ': a re-sent bunch adds its job count to job_groups_inst_coll_staging again although it inserted no row. commit_batch_update only compares the staged count with batch_updates.n_jobs, so an update '
+              'reserving n ids is committed with an id of its range missing (e.g. n_jobs = 4: bunch [1, 2] delivered twice, bunch [3, 4] never: staged 4 = 4): a later job naming the missing id as parent '
+              'waits forever', m.path, stage_e[0].lineno)
+    # one staged job per spec
+    outer = m.func('_create_jobs')
+    loops = [n for n in outer.body if isinstance(n, ast.For) and any(isinstance(c, ast.Call) and pf.dotted(c.func) == 'jobs_args.append' for c in ast.walk(n))]
+    ctx.need(len(loops) == 1, f'{FE}::_create_jobs: per-job loop not found')
+    incs = [n for n in ast.walk(loops[0]) if isinstance(n, ast.AugAssign) and isinstance(n.target, ast.Subscript) and pf.const_str(n.target.slice) == 'n_jobs']
+    ins, _dup, _uv = sr.insert_colmap(stage_e[1])
+    elts = sr.args_tuple(fn, stage_e[0].call.args[1]) if len(stage_e[0].call.args) > 1 else None
+    params = sr.params_in_order(stage_e[1])
+    ctx.need(elts is not None and len(elts) == len(params) and ins.get('n_jobs') is not None and ins['n_jobs'].kind == 'param', f'{cons}: cannot bind the n_jobs column of the staging insert')
+    staged = elts[[i for i, p_ in enumerate(params) if p_ is ins['n_jobs']][0]]  # type: ignore[index]
+    ok = len(incs) == 1 and incs[0] in loops[0].body and isinstance(incs[0].op, ast.Add) and isinstance(incs[0].value, ast.Constant) and incs[0].value.value == 1 \
+        and isinstance(staged, ast.Subscript) and pf.const_str(staged.slice) == 'n_jobs'
+    if not ok:
+        ctx.need(len(incs) >= 1 and all(isinstance(i.value, ast.Constant) for i in incs) and isinstance(staged, ast.Subscript), f'{FE}::_create_jobs: staged job count `{pf.nsrc(staged)}` / its increments not recognised')
+    ctx.check(ok, 'R6', f'{FE}::_create_jobs::one staged job per inserted job', f'the staged job count (`{pf.nsrc(staged)}`) is not incremented by exactly 1, unconditionally, for every job of the bunch '
+              f'(increments: {[pf.nsrc(i) for i in incs]}): staged count and number of job rows differ and the commit check no longer pins the set of ids', m.path, loops[0].lineno)
+    # what the commit compares
+    prog = sf.load_program()
+    r = prog.routine('commit_batch_update')
+    exp = stg = None
+    for st in sf.all_statements(r.ast.body):
+        if st.kind == 'select' and st.into and st.frm is not None:
+            tabs = [t.lower() for t in sf.table_names(st.frm)]
+            for (c, _al), v in zip(st.cols, st.into):
+                if text(v).lower() == 'expected_n_jobs':
+                    exp = tabs == ['batch_updates'] and c.kind == 'col' and c.parts[-1].lower() == 'n_jobs' and sr.has_eq(st.where, 'batch_id', 'in_batch_id') and sr.has_eq(st.where, 'update_id', 'in_update_id')
+                if text(v).lower() == 'staging_n_jobs':
+                    sums = [n for n in c.walk() if n.kind == 'func' and n.name.upper() == 'SUM' and len(n.args) == 1 and n.args[0].kind == 'col' and n.args[0].parts[-1].lower() == 'n_jobs']
+                    stg = tabs == ['job_groups_inst_coll_staging'] and len(sums) == 1 and sr.has_eq(st.where, 'batch_id', 'in_batch_id') and sr.has_eq(st.where, 'update_id', 'in_update_id') \
+                        and sr.has_eq(st.where, 'job_group_id', '0') and len(sf.conjuncts(st.where)) == 3
+    ctx.need(exp is not None and stg is not None, 'commit_batch_update: reads of expected_n_jobs / staging_n_jobs not found')
+    ctx.check(bool(exp) and bool(stg), 'R6', f'sql::commit_batch_update::compares staged count of the update with its reserved count',
+              'expected_n_jobs is not batch_updates.n_jobs of (in_batch_id, in_update_id), or staging_n_jobs is not SUM(n_jobs) of the root job group\'s staging rows of that update: '
+              'the commit check does not compare the number of delivered jobs with the number reserved', r.file, r.line)
+
+
+
+def r7(ctx: Ctx) -> None:
+    """`1 <= parent < job id` (R1) proves that a parent id lies in a RESERVED range, not that the job row exists: an earlier update that reserved ids and was
+    abandoned (its client crashed between updates/create and commit; later updates are still accepted) leaves a hole.  A dependency on an id in the hole can
+    never be satisfied, so the commit's recount of pending parents must not count it: decided as the contribution of the row class "parent has no jobs row"
+    (every column of the outer-joined jobs row is NULL - a NULL class, nothing else about the row matters) to each aggregate of the recount, and from there,
+    by linearity, to the expressions stored in jobs.n_pending_parents and tested for jobs.state."""
+    from engines.sqleval import ev
+    from engines import linform as lf
+    prog = sf.load_program()
+    r = prog.routine('commit_batch_update')
+    ups = [st for st in sf.all_statements(r.ast.body) if st.kind == 'update' and any(c.kind == 'col' and c.parts[-1].lower() in ('n_pending_parents',) for c, _ in st.sets)]
+    ctx.need(len(ups) == 1, f'commit_batch_update: expected one UPDATE that recounts jobs.n_pending_parents, found {len(ups)}')
+    st = ups[0]
+    der = [j.ref for j in st.frm.joins if j.ref.kind == 'derived'] + ([st.frm.first] if st.frm.first.kind == 'derived' else [])
+    der = [d for d in der if 'job_parents' in [t.lower() for t in sf.table_names(d.select.frm)]]
+    ctx.need(len(der) == 1 and der[0].alias, 'commit_batch_update: derived table over job_parents not recognised')
+    t_alias = der[0].alias.lower()
+    sel = der[0].select
+    frm = sel.frm
+    ctx.need(frm.first.kind == 'table' and frm.first.name.lower() == 'job_parents' and len(frm.joins) == 1 and frm.joins[0].ref.kind == 'table' and frm.joins[0].ref.name.lower() == 'jobs',
+             'commit_batch_update: recount is not `job_parents [LEFT] JOIN jobs`')
+    j = frm.joins[0]
+    on_ok = any(c.kind == 'bin' and c.op == '=' and {text(c.left).lower().split('.')[-1], text(c.right).lower().split('.')[-1]} == {'job_id', 'parent_id'} for c in sf.conjuncts(j.on))
+    ctx.need(on_ok, 'commit_batch_update: the recount does not join jobs on job_parents.parent_id')
+    outer = 'LEFT' in (j.jtype or '').upper()
+    jq = {(j.ref.alias or j.ref.name).lower(), j.ref.name.lower()}
+    pq = {(frm.first.alias or frm.first.name).lower(), 'job_parents'}
+    jobs_cols = {c.lower() for c in prog.tables.get('jobs', [])}
+    par_cols = {c.lower() for c in prog.tables.get('job_parents', [])}
+    ctx.need(jobs_cols and par_cols, 'schema of jobs / job_parents not found')
+
+    class _NotNullClass(Exception):
+        pass
+
+    def env(n: N):
+        if n.kind == 'col':
+            col = n.parts[-1].lower()
+            if len(n.parts) >= 2:
+                if n.parts[-2].lower() in jq:
+                    return None
+            elif col in jobs_cols and col not in par_cols:
+                return None
+        raise _NotNullClass(text(n))
+
+    def agg_contrib(e: N) -> Optional[int]:
+        """what ONE edge whose parent has no jobs row adds to the aggregate (None = not recognised)."""
+        if e.kind == 'cast':
+            return agg_contrib(e.arg)
+        if e.kind == 'func' and e.name.upper() in ('COALESCE', 'IFNULL') and len(e.args) == 2 and e.args[1].kind == 'lit' and e.args[1].value == 0:
+            return agg_contrib(e.args[0])
+        if e.kind == 'func' and e.name.upper() in ('SUM', 'COUNT') and len(e.args) == 1 and not getattr(e, 'distinct', False):
+            if not outer:
+                return 0                       # inner join: the edge is not in the group at all
+            a = e.args[0]
+            if a.kind == 'star':
+                return 1 if e.name.upper() == 'COUNT' else None
+            try:
+                v = ev(a, env)
+            except _NotNullClass:
+                return None
+            if e.name.upper() == 'COUNT':
+                return 0 if v is None else 1
+            if v is None:
+                return 0                       # SUM skips NULL
+            return int(v) if isinstance(v, (int, bool)) else None
+        return None
+
+    contrib = {}
+    for c, al in sel.cols:
+        if al is None:
+            continue
+        contrib[al.lower()] = agg_contrib(c)
+
+    def lin(e: N):
+        if e.kind == 'lit' and isinstance(e.value, int) and not isinstance(e.value, bool):
+            return lf.const(e.value)
+        if e.kind == 'cast':
+            return lin(e.arg)
+        if e.kind == 'func' and e.name.upper() in ('COALESCE', 'IFNULL') and len(e.args) == 2 and e.args[1].kind == 'lit' and e.args[1].value == 0:
+            return lin(e.args[0])
+        if e.kind == 'col' and len(e.parts) == 2 and e.parts[0].lower() == t_alias and e.parts[1].lower() in contrib:
+            return lf.sym(e.parts[1].lower())
+        if e.kind == 'bin' and e.op in ('+', '-'):
+            a, b = lin(e.left), lin(e.right)
+            return a + b if e.op == '+' else a - b
+        raise AnalysisError(f'commit_batch_update: `{text(e)[:80]}` is not a linear combination of the recount\'s aggregates')
+
+    def missing_part(e: N, what: str) -> int:
+        le = lin(e)
+        tot = 0
+        for x, k in le.coef.items():
+            ctx.need(contrib.get(x) is not None, f'commit_batch_update: aggregate `{x}` of the recount not recognised (needed for {what})')
+            tot += k * contrib[x]
+        return tot
+
+    cons = 'sql::commit_batch_update::recount'
+    hist = ('History: update 1 of a batch (batches/create, n_jobs = 2) reserves job ids 1-2 and is abandoned by its client; update 2 (updates/create) gets start_job_id 3; its job 3 names '
+            'absolute_parent_ids [2]: 1 <= 2 < 3 passes the front-end check although job 2 has no row; update 2 is committed')
+    for c, v in st.sets:
+        if c.kind != 'col':
+            continue
+        col = c.parts[-1].lower()
+        tq = c.parts[-2].lower() if len(c.parts) >= 2 else 'jobs'
+        if tq != 'jobs':
+            continue
+        if col == 'n_pending_parents':
+            k = missing_part(v, 'jobs.n_pending_parents')
+            ctx.check(k == 0, 'R7', cons + '::missing parent is not pending (n_pending_parents)',
+                      f'`n_pending_parents = {text(v)[:100]}` counts {k} for a dependency edge whose parent id has no jobs row (aggregates per such edge: '
+                      f'{ {a: b for a, b in contrib.items()} }). {hist}: job 3 gets n_pending_parents = {k}; no job 2 will ever complete and decrement it, job 3 stays Pending, the batch never completes',
+                      r.file, r.line_of(st))
+        if col == 'state':
+            ok_shape = v.kind == 'func' and v.name.upper() == 'IF' and len(v.args) == 3 and v.args[0].kind == 'bin' and v.args[0].op == '=' and \
+                any(x.kind == 'lit' and x.value == 0 for x in (v.args[0].left, v.args[0].right)) and text(v.args[1]).strip("'") == 'Ready'
+            ctx.need(ok_shape, f'commit_batch_update: `jobs.state = {text(v)[:80]}` is not IF(<count> = 0, \'Ready\', ..)')
+            e = v.args[0].right if (v.args[0].left.kind == 'lit') else v.args[0].left
+            k = missing_part(e, 'jobs.state')
+            ctx.check(k == 0, 'R7', cons + '::missing parent is not pending (state)',
+                      f'`state = {text(v)[:100]}` keeps a job Pending for a dependency edge whose parent id has no jobs row (the tested count gets {k} per such edge). {hist}: job 3 stays Pending forever',
+                      r.file, r.line_of(st))
+
+
+
+def _has_parent_fk(prog) -> bool:
+    import re
+    from engines.common import read_repo
+    for s_ in prog.scripts:
+        if s_.endswith('.sql'):
+            src = read_repo(f'batch/sql/{s_}')
+            if 'job_parents' in src and 'parent_id' in src and re.search(r'FOREIGN\s+KEY\s*\(\s*`?batch_id`?\s*,\s*`?parent_id`?\s*\)\s*REFERENCES\s+`?jobs`?', src, re.I):
+                return True
+    return False
+
+
+def r8(ctx: Ctx) -> None:
+    """R1 bounds a parent id by the job's own id; R2 + R6 + the primary key make the ids of an update exist once THAT update is committed.  A parent id below
+    the update's own range therefore exists only if the earlier update that reserved it was committed (or is still going to be).  Some construct has to
+    establish that: a refusal to open (or to commit) an update while an earlier one is uncommitted, a look-up of the named parents in `jobs`, or a foreign
+    key.  The rule looks for the ingredients of each; none at all is a violation, an ingredient it cannot verify is declined."""
+    m = pf.load(FE)
+    prog = sf.load_program()
+    cons = f'{FE}::_create_jobs::parent ids -> job_parents::parent row exists (ids reserved by earlier updates)'
+    if _has_parent_fk(prog):
+        ctx.ok('R8', cons, 'foreign key job_parents(batch_id, parent_id) -> jobs')
+        return
+    # (g1) opening an update looks at the committed flag of the previous one
+    fn = m.func('_create_batch_update.update')
+    g1 = []
+    for e in [e for e in sf.embedded_in(m) if e.fn is fn]:
+        for st in e.stmts():
+            if st.kind != 'select' or 'batch_updates' not in [t.lower() for t in sf.table_names(st.frm)]:
+                continue
+            mentioned = [n for c, _ in st.cols for n in c.walk()] + (list(st.where.walk()) if st.where is not None else [])
+            if any(n.kind == 'col' and n.parts[-1].lower() == 'committed' for n in mentioned) or any(n.kind == 'star' for c, _ in st.cols for n in c.walk()):
+                g1.append(e)
+    # (g2) committing an update looks at other updates of the batch
+    r = prog.routine('commit_batch_update')
+    g2 = []
+    for st in sf.all_statements(r.ast.body):
+        for n in st.walk():
+            if n.kind == 'select' and n.frm is not None and 'batch_updates' in [t.lower() for t in sf.table_names(n.frm)]:
+                for c in sf.conjuncts(n.where):
+                    if c.kind == 'bin' and c.op in ('<', '<=', '!=', '<>', '>', '>=') and any(x.kind == 'col' and x.parts[-1].lower() == 'update_id' for x in (c.left, c.right)):
+                        g2.append(text(n)[:80])
+    # (g3) the bunch handler looks the named parents up
+    g3 = []
+    for e in sf.embedded_in(m):
+        if e.qual.startswith('_create_jobs'):
+            for st in e.stmts():
+                if st.kind == 'select' and [t.lower() for t in sf.table_names(st.frm)] == ['jobs']:
+                    g3.append(text(st)[:80])
+    ingredients = [f'_create_batch_update reads batch_updates.committed (line {e.lineno})' for e in g1] + [f'commit_batch_update compares update ids: {t}' for t in g2] + \
+                  [f'_create_jobs reads jobs: {t}' for t in g3]
+    ctx.need(not ingredients, f'{cons}: a construct that may establish the existence of earlier updates\' jobs is present but not verified: ' + '; '.join(ingredients[:3]))
+    ctx.bad('R8', cons, 'nothing establishes that a parent id below the update\'s own range names an existing job: `1 <= parent < job id` only places it in a reserved range, a new update is opened '
+            'without looking at the committed flag of the earlier ones, the commit does not look at other updates, the parents are not looked up in `jobs` and job_parents.parent_id has no foreign key. '
+            'History: POST batches/create {n_jobs: 2} reserves ids 1-2 as update 1 and the client dies; POST updates/create {n_jobs: 1} opens update 2 with start_job_id 3; its bunch '
+            '[{job_id: 1, absolute_parent_ids: [2]}] is accepted (1 <= 2 < 3) and inserts job 3 with a job_parents row (3, 2) although job 2 does not exist: a submission naming a missing dependency is '
+            'not rejected. (The commit\'s recount then finds no row for parent 2, counts it as not pending and not succeeded, so job 3 is marked cancelled instead of hanging - R7.)',
+            m.path, m.func('_create_jobs').lineno)
+
 
 
 ID_KEYS = ('job_id', 'parent_ids', 'absolute_parent_ids', 'in_update_parent_ids')
@@ -276,13 +753,22 @@ def r5(ctx: Ctx) -> None:
 
 
 def run(ctx: Ctx) -> None:
-    ctx.explanation = 'Must-validate taint rule over the job submission path plus guard structure of commit_batch_update.'
-    ctx.rule('R1', 'parent ids are validated against the job\'s own id (parent < child, parent exists) before reaching job_parents', 2)
-    ctx.rule('R2', 'job id is validated against the update\'s reserved range before reaching jobs', 1)
+    ctx.explanation = 'Linear-normal-form implication between the rejecting tests of the job submission path and the id ranges the property demands, plus guard structure of commit_batch_update.'
+    ctx.rule('R1', 'stored parent ids satisfy 1 <= parent < stored job id for absolute and in-update parents; edges stored under the job\'s own id', 4)
+    ctx.rule('R2', 'stored job id lies in start_job_id .. start_job_id + n_jobs - 1 of the batch_updates row of the job\'s own (batch_id, update_id)', 3)
     ctx.rule('R3', 'commit refuses a wrong job count: all writes under the equality guard; refusal rolls back with rc != 0; front end checks rc', 7)
     ctx.rule('R4', 'duplicate parents rejected; contiguous job ids demanded', 2)
     ctx.rule('R5', 'job ids and parent ids are validated as integers (no fractional ids rounded by the INT columns after validation)', 4)
-    r1_r2(ctx)
-    r3(ctx)
-    r4(ctx)
-    r5(ctx)
+    ctx.rule('R6', 'the staged job count the commit compares is the number of inserted job rows: staged after INSERT INTO jobs, never by a replayed bunch, 1 per job; commit compares it with batch_updates.n_jobs', 3)
+    ctx.rule('R7', 'the commit\'s recount of pending parents gives 0 for a dependency whose parent id has no jobs row (hole of an abandoned update), in n_pending_parents and in the state decision', 2)
+    ctx.rule('R8', 'something establishes that a parent id reserved by an EARLIER update names an existing job (earlier updates committed before a new one is opened / committed, parents looked up, or a foreign key)', 1)
+    # the rules are independent: a shape one of them cannot analyse must not hide the verdicts of the others
+    declined: List[str] = []
+    for rule in (r1_r2, r3, r4, r5, r6, r7, r8):
+        try:
+            rule(ctx)
+        except AnalysisError as e:
+            if type(e) is not AnalysisError:
+                raise                      # AnchorRemoved and friends keep their own handling
+            declined.append(str(e))
+    ctx.need(not declined, ' | '.join(declined))
